@@ -250,6 +250,16 @@ func (g *Gate) Grant(c int) error {
 	case "rh":
 		if b, ok := g.store.GetRaw(req.path); ok {
 			st.N, _ = strconv.Atoi(strings.TrimSpace(string(b)))
+			// Queue.ReadHead probes for the entries behind the HEAD object (ungated
+			// Exists calls in the same scheduling step): what it returns is the last
+			// entry of the unbroken run that starts there.
+			dir := strings.TrimSuffix(req.path, "HEAD")
+			for {
+				if _, ok := g.store.GetRaw(fmt.Sprintf("%s%d.zng", dir, st.N+1)); !ok {
+					break
+				}
+				st.N++
+			}
 		}
 	case "cas":
 		if _, ok := g.store.GetRaw(req.path); ok {
